@@ -82,6 +82,8 @@ pub fn gen(r: &mut Rng) -> Value {
         // searched for values that are themselves command names
         "array_contains ${sp} pwd", "array_contains ${sp} array", "array_contains ${sp} zz", "array_contains ${sp} \"a b\"", "array_join ${sp} ,", "array_is_empty ${sp}",
         "map_contains_value ${mp} pwd", "map_contains_value ${mp} =",
+        // a map with the empty text as a key, a map / an array holding option-like words as data
+        "map_contains_value ${me} nosuch", "map_contains_value ${me} v2", "map_contains_key ${me} \"\"", "map_contains_value ${mo} nosuch", "array_contains ${ao} zz", "array_contains ${ao} -r",
         // an argument value that starts with `=` (class of the C09 known finding: the body's `if <command> ${argument}`
         // re-reads `<command> =x` as an assignment to a variable named like the command)
         "array_join ${arr} \"=\"", "join_path \"=a\" b", "array_concat \"=x\" ${arr}", "set_from_array \"=x\"", "array_join ${arr} \"=-\"",
@@ -92,6 +94,15 @@ pub fn gen(r: &mut Rng) -> Value {
         // arguments that name the called command's own working variables
         "unset vb scope::unset::arguments", "unset scope::unset::arguments", "unset scope::unset::name vb", "is_empty scope::is_empty::arguments",
     ];
+    let dict = dictionary();
+    if !dict.is_empty() && r.chance(1, 8) {
+        // an option-like word that occurs in the source of the tree under test, stored as DATA in a map and in an array
+        // that script-implemented commands search (such a word is text like any other)
+        let w = r.pick(dict);
+        let extra_setup = format!("md = map\nmap_put ${{md}} k1 \"{}\"\nmap_put ${{md}} k2 other\nad = array \"{}\" x", w, w);
+        let seq: Vec<String> = vec![format!("map_contains_value ${{md}} {}", r.pick(&["nosuch", "other", w.as_str()])), format!("array_contains ${{ad}} {}", r.pick(&["zz", "x", w.as_str()]))];
+        return json!({"calls": seq, "with_out": true, "caller_vars": [], "wraps": [0, 0], "extra_setup": extra_setup});
+    }
     let n = 1 + r.below(4);
     let seq: Vec<String> = (0..n).map(|_| r.pick(&calls).to_string()).collect();
     // caller variables whose names are close to the names the called command uses internally (same textual
@@ -105,6 +116,14 @@ pub fn gen(r: &mut Rng) -> Value {
     // a call may sit in a loop body (it then runs twice) or in the body of a function that is called
     let wraps: Vec<u64> = seq.iter().map(|_| if r.chance(1, 3) { 1 + r.below(2) as u64 } else { 0 }).collect();
     json!({"calls": seq, "with_out": r.chance(2, 3), "caller_vars": extra, "wraps": wraps})
+}
+
+/// option-like words harvested by the driver from the source of the tree under test (VERIF_DICT names the file)
+fn dictionary() -> &'static Vec<String> {
+    static D: std::sync::OnceLock<Vec<String>> = std::sync::OnceLock::new();
+    D.get_or_init(|| {
+        std::env::var("VERIF_DICT").ok().and_then(|p| std::fs::read_to_string(p).ok()).map(|t| t.lines().filter(|l| !l.is_empty()).map(|l| l.to_string()).collect()).unwrap_or_default()
+    })
 }
 
 /// structural class of an input (to tell the listed known finding from a new violation)
@@ -193,8 +212,11 @@ fn run_inner(input: &Value) -> Option<Value> {
     }
     let mut context = Context::new();
     duckscriptsdk::load(&mut context.commands).ok()?;
-    let setup = "arr = array a b c\nmap = map\nmap_put ${map} k1 v1\nset = set_new x y\nva = set 1\nvb = set 2\nscope::caller::x = set keep\nsp = array x = \"a b\" \"#c\" pwd\nmp = map\nmap_put ${mp} k =\nmap_put ${mp} k2 pwd";
+    let setup = "arr = array a b c\nmap = map\nmap_put ${map} k1 v1\nset = set_new x y\nva = set 1\nvb = set 2\nscope::caller::x = set keep\nsp = array x = \"a b\" \"#c\" pwd\nmp = map\nmap_put ${mp} k =\nmap_put ${mp} k2 pwd\nme = map\nmap_put ${me} \"\" v0\nmap_put ${me} k2 v2\nmo = map\nmap_put ${mo} k1 --help\nmap_put ${mo} k2 -r\nao = array --help -r --collection";
     context = runner::run_script(setup, context, None).ok()?;
+    if let Some(x) = input["extra_setup"].as_str() {
+        context = runner::run_script(x, context, None).ok()?;
+    }
     if let Some(vs) = input["caller_vars"].as_array() {
         for (k, v) in vs.iter().enumerate() {
             context.variables.insert(v.as_str()?.to_string(), format!("caller{}", k));
